@@ -22,7 +22,13 @@ ROOT_RUN = {
     "slot_offsetter.go": "TestSlotOffsetter|TestOffsetterRandom|TestSlotSequencer",
     "codec.go": "TestSimpleCodec|TestCodecConn",
     "timer.go": "TestTimer",
+    "file.go": "TestConn|TestTCP|TestAsync|TestRead|TestWrite",
+    "async_adapter.go": "TestConn|TestTCP|TestAsync|TestRead|TestWrite",
+    "conn.go": "TestConn|TestTCP|TestAsync|TestRead|TestWrite",
+    "listen_conn.go": "TestConn|TestTCP|TestAsync|TestRead|TestWrite",
+    "io.go": "TestPost|TestPoll|TestRunOne|TestRunWarm|TestIOPending|TestSetUnset|TestDispatch|TestEmptyPoll|TestConn|TestTCP|TestAsync|TestTimer",
 }
+INTERNAL_RUN = "TestPost|TestPoll|TestRunOne|TestRunWarm|TestIOPending|TestSetUnset|TestDispatch|TestEmptyPoll|TestConn|TestTCP|TestAsync|TestRead|TestWrite|TestTimer"
 
 
 def test_cmd(rel):
@@ -33,7 +39,7 @@ def test_cmd(rel):
             return "flock /tmp/sonic_test.lock go test -count=1 -vet=off -timeout 150s ."
         return f"flock /tmp/sonic_test.lock go test -count=1 -vet=off -timeout 100s -run '{run}' ."
     if d == "internal":
-        return "flock /tmp/sonic_test.lock go test -count=1 -vet=off -timeout 150s ."
+        return f"flock /tmp/sonic_test.lock go test -count=1 -vet=off -timeout 100s -run '{INTERNAL_RUN}' ."
     return f"flock /tmp/sonic_test.lock go test -count=1 -vet=off -timeout 150s ./{d}/"
 
 
@@ -57,7 +63,7 @@ def main():
     silent = [m for m in mutants if m["status"] == "silent"]
     print(f"{len(mutants)} variants, {sum(m['status']=='reported' for m in mutants)} reported, "
           f"{sum(m['status']=='nocompile' for m in mutants)} do not compile, {len(silent)} silent", flush=True)
-    wt = "/tmp/mutsweep_wt"
+    wt = "/tmp/mutsweep_wt_" + os.path.basename(out.rstrip("/"))
     subprocess.run(["git", "-C", "/repo", "worktree", "remove", "--force", wt], stdout=subprocess.DEVNULL, stderr=subprocess.DEVNULL)
     subprocess.run(["git", "-C", "/repo", "worktree", "add", "-q", "--detach", wt, "HEAD"], check=True)
     survivors = []
